@@ -9,17 +9,17 @@ NAME = "libhdr"
 BUILD_TARGETS = ["AldorVerif.Props.C17"]
 SOURCES = ["lib.c", "lib.h", "archive.c", "file.h", "buffer.c"]
 MODELLED = ("lib.c: libNewHeader libAddSection+libPutSection(bookkeeping) libPutHeader libGetHeader libChkHeader "
-            "libHasSection libGetSection (FILE_GET_CHARS = fread with the count discarded); archive.c: arRdFormat "
+            "libHasSection libGetSection libBadFile (the repaired reader: fread counts, verdict and bounds tested); archive.c: arRdFormat "
             "arFirst arNext arEndp arSeek arRdItemArch0 arReadNumber for the !<arch> format (not: // name table, "
             "/n indirect names, AIX/CMS formats); the decoders of the section bodies are not modelled")
 _L = "AldorVerif.LibHdr."
 _A = "AldorVerif.Archive."
 THEOREMS = [("AldorVerif.Props.C17", t) for t in (
-    _L + "chk_contiguous", _L + "chk_exactly", _L + "chk_names_distinct", _L + "getHeader_putHeader",
-    _L + "intact_accepted", _L + "truncation_keeps_header", _L + "accepted_in_bounds_statement_refuted",
-    _L + "strict_truncation_accepted", _L + "checked_accepted_in_bounds", _L + "checked_refuses_truncation",
-    _L + "getSection_length", _L + "getSection_in_bounds", _L + "getSection_short", _L + "getSectionChecked_exact",
-    _L + "truncation_classes",
+    _L + "chk_contiguous", _L + "chk_exactly", _L + "chk_names_distinct", _L + "chk_sections_below_end",
+    _L + "accepted_in_bounds", _L + "accepted_independent_of_junk", _L + "chk_alone_does_not_bound",
+    _L + "truncation_keeps_header", _L + "truncation_refused", _L + "trailing_bytes_accepted",
+    _L + "readHeader_putHeader", _L + "intact_accepted", _L + "getSection_exact", _L + "getSection_short_refused",
+    _L + "accepted_sections_complete", _L + "truncation_classes",
     _A + "walk_members_start_in_file", _A + "step_forward_partial", _A + "member_in_bounds_statement_refuted",
     _A + "walk_terminates_statement_refuted")]
 
@@ -103,6 +103,9 @@ def gen_header_lines(rng, thorough, real_files):
     for f in synth:
         G(f, 0); G(f, 170)
         for n in range(20): S(f, 0, n)
+        # bytes after the last section (accepted: only `end > size` refuses)
+        G(f + b"\x00", 0); G(f + bytes(range(7)), 170)
+        for n in rng.sample(range(20), 4): S(f + b"\xff\xfe", 0, n)
     # every truncation of the first synthetic files, with three kinds of junk
     for f in synth[:3] + real_files[:1]:
         top = min(len(f), HDR + 40)
@@ -153,29 +156,32 @@ def parse_hdr_line(s):
     d["v"] = t[vi + 1]
     return d
 
-def oracle_verdict(b, junk, used_only=False):
-    """python's own libGetHeader+libChkHeader on the bytes (uninitialised bytes = junk, first = 0);
-    used_only: Index[] set up from the first numSect entries only (the repaired reader)"""
-    buf = bytearray(b[:HDR])
-    while len(buf) < HDR:
-        buf.append(0 if len(buf) == 0 else junk)
-    if len(b) == 0 and HDR > 0:
-        buf[0] = 0
-    h = parse_ao_header(bytes(buf))
+def oracle(b):
+    """python's own libGetHeader on the bytes: ("fatal", reason) or ("ok", header dict with idx)"""
+    if len(b) < HDR:
+        return "fatal", "badSectHdr"
+    h = parse_ao_header(b)
     idx = [NLIM] * 20
-    for i in range(min(NLIM, h["ns"]) if used_only else NLIM):
+    for i in range(min(NLIM, h["ns"])):
         if h["tab"][i][0] < NLIM: idx[h["tab"][i][0]] = i
-    if h["magic"] != 0o420: return h, "badMagic"
-    if h["vmaj"] < 28: return h, "badVersion"
-    if h["ns"] > NLIM: return h, "badNumSect"
-    for i in range(h["ns"]):
-        n = h["tab"][i][0]
-        if n >= NLIM: return h, "badSectName"
-        if idx[n] != i: return h, "bugIndex"
-    if h["tab"][0][1] != HDR: return h, "badSectHdr"
-    for i in range(1, h["ns"]):
-        if h["tab"][i][1] != h["tab"][i - 1][1] + h["tab"][i - 1][2]: return h, "badSectHdr"
-    return h, "ok"
+    h["idx"] = idx
+    def verdict():
+        if h["magic"] != 0o420: return "badMagic"
+        if h["vmaj"] < 28: return "badVersion"
+        if h["ns"] > NLIM: return "badNumSect"
+        for i in range(h["ns"]):
+            n = h["tab"][i][0]
+            if n >= NLIM: return "badSectName"
+            if idx[n] != i: return "dupSect"
+        if h["tab"][0][1] != HDR: return "badSectHdr"
+        for i in range(1, h["ns"]):
+            if h["tab"][i][1] != h["tab"][i - 1][1] + h["tab"][i - 1][2]: return "badSectHdr"
+        return "ok"
+    v = verdict()
+    if v != "ok": return "fatal", v
+    end = HDR if h["ns"] == 0 else h["tab"][h["ns"] - 1][1] + h["tab"][h["ns"] - 1][2]
+    if end > len(b): return "fatal", "badOffset"
+    return "ok", h
 
 def run_header_corr(ctx, build, real_files):
     exe = build.cc_driver("libhdr_drv", os.path.join(VERIF, "harness", "libhdr_drv.c"))
@@ -202,15 +208,14 @@ def run_header_corr(ctx, build, real_files):
     c = common.run_impl_lines(exe, [l for l in lines if not l.startswith("C ")], env={"DRV_TMP": tmp})
     m_all = common.run_model("libhdr", "\n".join(lines) + "\n")
     assert len(m_all) == len(lines), (len(m_all), len(lines))
-    stats = {"lines": len(lines), "corpus": ncorpus, "mismatch": 0, "asis_matches": 0, "fixed_matches": 0,
+    stats = {"lines": len(lines), "corpus": ncorpus, "mismatch": 0, "accepted": 0, "refused": 0,
              "accepted_out_of_bounds": 0, "short_reads": 0, "oracle_checked": 0, "class_checked": 0}
     tags = []
     ci = 0
     seen = set()
-    mode_asis = mode_fixed = None
     for k, ln in enumerate(lines):
         parts = m_all[k].split("\t")
-        mo = parts[0]; tg = parts[1] if len(parts) > 1 else ""; fx = parts[2] if len(parts) > 2 else mo
+        mo = parts[0]; tg = parts[1] if len(parts) > 1 else ""
         tags.append(tg)
         if ln.startswith("C "):
             # model-only line: the Lean truncClass against python's independent classification
@@ -235,49 +240,63 @@ def run_header_corr(ctx, build, real_files):
             if co != mo:
                 ctx.corr_broken.append((NAME, ln, co, mo))
             continue
-        matches_asis = (co == mo)
-        matches_fixed = (co == fx) or (fx == "fatal" and co.startswith("fatal"))
-        if mo != fx or (fx == "fatal") != co.startswith("fatal"):
-            # a line that distinguishes the code as it stands from the repaired reader
-            if matches_asis and not matches_fixed: stats["asis_matches"] += 1; mode_asis = mode_asis or ln
-            if matches_fixed and not matches_asis: stats["fixed_matches"] += 1; mode_fixed = mode_fixed or ln
-        # executable property on the implementation's own answer
+        # executable property on the implementation's own answer: the python oracle reads the bytes itself
         impl_ok = True; why = ""
-        if toks[0] == "G":
-            fb = bytes.fromhex(toks[1]) if toks[1] != "-" else b""
+        fb = bytes.fromhex(toks[1]) if toks[1] != "-" else b""
+        ov, oh = oracle(fb)
+        stats["oracle_checked"] += 1
+        if co.startswith("fatal"):
+            stats["refused"] += 1
+            if ov != "fatal":
+                impl_ok = False; why = "an intact, in-bounds library is refused (%s)" % co
+            elif co != "fatal " + oh:
+                impl_ok = False; why = "refused with %s, python's reading says %s" % (co, oh)
+        elif toks[0] == "G":
             d = parse_hdr_line(co)
-            if d is not None:
-                stats["oracle_checked"] += 1
-                oh, ov = oracle_verdict(fb, int(toks[2]))
-                _, ov2 = oracle_verdict(fb, int(toks[2]), used_only=True)
-                if d["v"] not in (ov, ov2) or d["tab"][:NLIM] != list(oh["tab"]) or d["ns"] != oh["ns"]:
-                    impl_ok = False; why = "python's reading of the bytes gives verdict %s, table %s" % (ov, oh["tab"][:3])
-                if d["v"] == "ok":
-                    oob = [i for i in range(d["ns"]) if d["tab"][i][1] + d["tab"][i][2] > len(fb)]
-                    if oob:
-                        stats["accepted_out_of_bounds"] += 1
-                        ctx.finding("libhdr|accepted-out-of-bounds",
-                                    "libChkHeader accepts a header whose section %d (offset %d, length %d) lies beyond the end of the %d-byte file "
-                                    "(theorem accepted_in_bounds_statement_refuted); libGetHeader discards the verdict anyway" %
-                                    (oob[0], d["tab"][oob[0]][1], d["tab"][oob[0]][2], len(fb)),
-                                    {"kind": "impl-violates-property", "driver": "harness/libhdr_drv.c", "line": ln[:2000], "impl": co})
-            elif co.startswith("fatal"):
-                stats["oracle_checked"] += 1
-        elif toks[0] == "S" and co.startswith("want="):
-            fb = bytes.fromhex(toks[1]) if toks[1] != "-" else b""
-            if "short" in tg and matches_asis:
-                stats["short_reads"] += 1
-                ctx.finding("libhdr|short-read-unnoticed",
-                            "libGetSection hands a buffer to the decoders although fread delivered fewer bytes than the header "
-                            "announced (FILE_GET_CHARS discards the count; theorem getSection_short), e.g. %s -> %s" % (ln[-60:], co[:80]),
-                            {"kind": "impl-violates-property", "driver": "harness/libhdr_drv.c", "line": ln[:2000], "impl": co[:400]})
-        if not (matches_asis or matches_fixed):
+            stats["accepted"] += 1
+            if d is None:
+                impl_ok = False; why = "unparsable answer"
+            else:
+                oob = [i for i in range(min(d["ns"], 20)) if d["tab"][i][1] + d["tab"][i][2] > len(fb)]
+                if oob or len(fb) < HDR:
+                    stats["accepted_out_of_bounds"] += 1
+                    ctx.finding("libhdr|accepted-out-of-bounds",
+                                "libGetHeader accepts a header whose section %s lies beyond the end of the %d-byte file "
+                                "(contradicts theorem accepted_in_bounds: the size test is gone or wrong)" %
+                                (oob[:1], len(fb)),
+                                {"kind": "impl-violates-property", "driver": "harness/libhdr_drv.c", "line": ln[:2000], "impl": co})
+                    impl_ok = False; why = "accepted out of bounds"
+                elif ov == "fatal":
+                    impl_ok = False; why = "accepted although python's reading refuses it with %s" % oh
+                elif d["v"] != "ok" or d["tab"][:NLIM] != list(oh["tab"]) or d["ns"] != oh["ns"] or d["idx"] != oh["idx"] \
+                        or (d["magic"], d["vmaj"], d["vmin"]) != (oh["magic"], oh["vmaj"], oh["vmin"]):
+                    impl_ok = False; why = "header fields differ from python's reading of the bytes"
+        elif toks[0] == "S":
+            if ov == "fatal":
+                impl_ok = False; why = "section read from a file python's reading refuses (%s)" % oh
+            elif co.startswith("want="):
+                i = oh["idx"][int(toks[3])] if int(toks[3]) < 20 else NLIM
+                n, o, l = oh["tab"][i] if i < NLIM else (NLIM, 0, 0)
+                want = "want=%d data=%s" % (l, fb[o:o + l].hex())
+                if co != want or o + l > len(fb):
+                    stats["short_reads"] += 1
+                    ctx.finding("libhdr|short-read-unnoticed",
+                                "libGetSection hands a buffer to the decoders that is not the %d bytes at offset %d of the file "
+                                "(contradicts theorem getSection_exact: the fread count is not tested), e.g. %s -> %s" % (l, o, ln[-60:], co[:80]),
+                                {"kind": "impl-violates-property", "driver": "harness/libhdr_drv.c", "line": ln[:2000], "impl": co[:400]})
+                    impl_ok = False; why = "section bytes differ from the file"
+            elif co == "none":
+                i = oh["idx"][int(toks[3])] if int(toks[3]) < 20 else NLIM
+                if i < NLIM and oh["tab"][i][1] != 0:
+                    impl_ok = False; why = "section present in the file reported absent"
+        if co != mo:
             stats["mismatch"] += 1
             if not impl_ok:
-                ctx.finding("libhdr|header|" + hashlib.sha256(ln.encode()).hexdigest()[:10],
-                            "lib.c reads the header differently from the bytes in the file: %s (request %s, impl %s, model %s)" %
-                            (why, ln[:120], co[:200], mo[:200]),
-                            {"kind": "impl-violates-property", "line": ln, "impl": co, "model": mo, "why": why})
+                if why not in ("accepted out of bounds", "section bytes differ from the file"):
+                    ctx.finding("libhdr|reader-differs|" + "-".join(why.split()[:4]),
+                                "lib.c reads the library differently from the bytes in the file: %s (request %s, impl %s, model %s)" %
+                                (why, ln[:120], co[:200], mo[:200]),
+                                {"kind": "impl-violates-property", "line": ln, "impl": co, "model": mo, "why": why})
             else:
                 ctx.corr_broken.append((NAME, ln[:400], co[:400], mo[:400]))
         elif not impl_ok:
@@ -286,10 +305,6 @@ def run_header_corr(ctx, build, real_files):
                           {"kind": "inconsistent", "line": ln, "impl": co})
         if k % 700 == 5:
             ctx.sample({"module": "libhdr", "request": ln[:100], "impl": co[:160], "model": mo[:160], "tags": tg})
-    if mode_asis and mode_fixed:
-        ctx.corr_broken.append((NAME, "mixed behaviour", "as the unrepaired model on `%s`" % mode_asis[:120],
-                                "as the repaired model on `%s`" % mode_fixed[:120]))
-    stats["reader"] = "repaired (counts, verdict and bounds checked)" if mode_fixed and not mode_asis else "as in the unchanged tree"
     stats["tags"] = common.tag_hist(tags)
     stats["distinct_results"] = len(seen)
     ctx.cov["libhdr"] = stats
